@@ -438,7 +438,11 @@ class CoreMixin(object):
             f = nt_fields_of(expr)
             if f is not None:
                 return ClsRef(self.synth_namedtuple(module, name, f))
-            return self.eval_detached(module, expr, 'global %s.%s' % (module.name, name))
+            v = self.eval_detached(module, expr, 'global %s.%s' % (module.name, name))
+            if isinstance(v, (DictObj, ListObj)) and name not in self.p.mutated_names and \
+                    isinstance(expr, (ast.Dict, ast.List, ast.Set, ast.Tuple)):
+                object.__setattr__(v, 'site', None)      # a constant table (see model)
+            return v
         if name in module.imports:
             imp = module.imports[name]
             if imp[0] == 'module':
